@@ -7,6 +7,8 @@ CONSTANTS
   FixTrunc = TRUE
   FixGuard = TRUE
   FixOct0 = TRUE
+  FixSkip = TRUE
+  FixUncl = TRUE
   Emit = TRUE
   WithBad = TRUE
 INVARIANT EmitInv
